@@ -155,6 +155,9 @@ func (a *Array) AsFloat() ([]float64, error) {
 	off := a.off
 readArray:
 	for {
+		if off >= len(a.tape.Tape) {
+			return nil, errors.New("corrupt input: array has no end tag")
+		}
 		tag := Tag(a.tape.Tape[off] >> 56)
 		off++
 		switch tag {
@@ -196,6 +199,9 @@ func (a *Array) AsInteger() ([]int64, error) {
 	off := a.off
 readArray:
 	for {
+		if off >= len(a.tape.Tape) {
+			return nil, errors.New("corrupt input: array has no end tag")
+		}
 		tag := Tag(a.tape.Tape[off] >> 56)
 		off++
 		switch tag {
@@ -252,6 +258,9 @@ func (a *Array) AsUint64() ([]uint64, error) {
 	off := a.off
 readArray:
 	for {
+		if off >= len(a.tape.Tape) {
+			return nil, errors.New("corrupt input: array has no end tag")
+		}
 		tag := Tag(a.tape.Tape[off] >> 56)
 		off++
 		switch tag {
